@@ -282,7 +282,7 @@ def run(rep: Report, tier: str) -> None:
     srcs = {s[2].split(".__")[1] for s in subterms(it) if s[0] == "fld" and s[2].startswith("InputData.__")}
     want_src = {"unfiltered_in_transaction_set", "unfiltered_intra_transaction_set", "unfiltered_out_transaction_set"}
     rep.check(srcs == want_src, rd, fi.module, fi.qualname, "replay iterates the three unfiltered tables", f"the replay iterates {sorted(srcs)}; expected exactly {sorted(want_src)} (balances reflect all history up to the to-date)", where)
-    sorted_ok = it[0] == "xcall" and it[1] == "sorted" and not any(k == "reverse" for k, _ in it[4]) and _sorted_by_timestamp(m, fi, bm.replay)
+    sorted_ok = _sorted_by_timestamp(m, fi, bm.replay)
     rep.check(sorted_ok, rd, fi.module, fi.qualname, "replay list is sorted by timestamp", "the list replayed is not the result of sorted(..., key=<entry timestamp>): the overdraft check and the to-date cut need chronological order", where)
     _check_cut(rep, rd, m, fi, bm, where)
 
@@ -361,23 +361,65 @@ def _resubst(t: Any, var: str) -> Any:
 
 
 def _sorted_by_timestamp(m, fi, loop: ast.For) -> bool:
-    """loop iterates a name whose (last) definition is sorted(<list>, key=<function returning entry.timestamp>)."""
-    if not isinstance(loop.iter, ast.Name):
-        return False
-    name = loop.iter.id
-    defs = [n for n in ast.walk(fi.node) if isinstance(n, ast.Assign) and any(isinstance(t, ast.Name) and t.id == name for t in n.targets) and n.lineno < loop.lineno]
-    if not defs:
-        return False
-    last = max(defs, key=lambda n: n.lineno)
-    v = last.value
-    if not (isinstance(v, ast.Call) and isinstance(v.func, ast.Name) and v.func.id == "sorted"):
-        return False
-    if any(kw.arg == "reverse" for kw in v.keywords):
-        return False
-    key = [kw.value for kw in v.keywords if kw.arg == "key"]
-    if len(key) != 1:
-        return False
-    return _key_is_timestamp(m, fi, key[0])
+    """The loop iterates a list in ascending timestamp order: sorted(<list>, key=<entry timestamp>) directly or through a name, or a list built and then
+    ordered in place by <name>.sort(key=<entry timestamp>) as the last thing that touches it before the loop."""
+    return replay_order(m, fi, loop)[0]
+
+
+def _last_def(fi, name: str, before: int):
+    defs = [n for n in ast.walk(fi.node) if isinstance(n, (ast.Assign, ast.AnnAssign)) and getattr(n, "value", None) is not None and n.lineno < before
+            and any(isinstance(t, ast.Name) and t.id == name for t in (n.targets if isinstance(n, ast.Assign) else [n.target]))]
+    return max(defs, key=lambda n: n.lineno) if defs else None
+
+
+def replay_order(m, fi, loop: ast.For):
+    """(ascending by timestamp?, expression of the FIRST source of the merged list or None)."""
+
+    def sort_call_ok(call: ast.Call) -> bool:
+        rev = [kw.value for kw in call.keywords if kw.arg == "reverse"]
+        if any(not (isinstance(r, ast.Constant) and r.value is False) for r in rev):
+            return False
+        key = [kw.value for kw in call.keywords if kw.arg == "key"]
+        return len(key) == 1 and _key_is_timestamp(m, fi, key[0])
+
+    def first_source(e: ast.AST, before: int, depth: int = 0):
+        if depth > 6:
+            return None
+        if isinstance(e, ast.Name):
+            d = _last_def(fi, e.id, before)
+            return first_source(d.value, d.lineno, depth + 1) if d is not None else None
+        if isinstance(e, ast.BinOp) and isinstance(e.op, ast.Add):
+            return first_source(e.left, before, depth + 1)
+        if isinstance(e, (ast.List, ast.Tuple)) and e.elts:
+            f = e.elts[0]
+            return first_source(f.value, before, depth + 1) if isinstance(f, ast.Starred) else None
+        if isinstance(e, ast.Call):
+            fn = unparse(e.func)
+            if fn in ("list", "tuple", "iter") and len(e.args) == 1:
+                return first_source(e.args[0], before, depth + 1)
+            if fn in ("chain", "itertools.chain") and e.args and not any(isinstance(a, ast.Starred) for a in e.args):
+                return first_source(e.args[0], before, depth + 1)
+            return None
+        return e
+
+    it = loop.iter
+    if isinstance(it, ast.Call) and isinstance(it.func, ast.Name) and it.func.id == "sorted" and it.args:
+        return sort_call_ok(it), first_source(it.args[0], loop.lineno)
+    if not isinstance(it, ast.Name):
+        return False, None
+    name = it.id
+    d = _last_def(fi, name, loop.lineno)
+    if d is None:
+        return False, None
+    v = d.value
+    if isinstance(v, ast.Call) and isinstance(v.func, ast.Name) and v.func.id == "sorted" and v.args:
+        later = [n for n in ast.walk(fi.node) if isinstance(n, ast.Call) and isinstance(n.func, ast.Attribute) and isinstance(n.func.value, ast.Name) and n.func.value.id == name and d.lineno < n.lineno < loop.lineno]
+        return sort_call_ok(v) and not later, first_source(v.args[0], d.lineno)
+    # built, then ordered in place: exactly one method call on the name between its definition and the loop, and it is .sort(key=<timestamp>)
+    touches = [n for n in ast.walk(fi.node) if isinstance(n, ast.Call) and isinstance(n.func, ast.Attribute) and isinstance(n.func.value, ast.Name) and n.func.value.id == name and d.lineno < n.lineno < loop.lineno]
+    if len(touches) == 1 and touches[0].func.attr == "sort" and not touches[0].args:
+        return sort_call_ok(touches[0]), first_source(v, d.lineno)
+    return False, None
 
 
 def _key_is_timestamp(m, fi, key: ast.AST) -> bool:
@@ -386,6 +428,8 @@ def _key_is_timestamp(m, fi, key: ast.AST) -> bool:
         t = norm.term(key, norm.ctx_for(fi))
         body = t[2] if t[0] == "lambda" else None
         return body is not None and body[0] in ("attr", "fld", "virt") and "timestamp" in show(body)
+    if isinstance(key, ast.Call) and unparse(key.func) in ("attrgetter", "operator.attrgetter") and len(key.args) == 1 and not key.keywords:
+        return isinstance(key.args[0], ast.Constant) and key.args[0].value == "timestamp"  # the entry's own timestamp property
     if isinstance(key, ast.Name):
         res = m.prog.resolve_name(fi.module, key.id)
         if res and res[0] == "func":
